@@ -446,15 +446,36 @@ func laneSplit(x *ssa.Convert) bool {
 	if !ok || signed {
 		return false
 	}
-	refs := x.X.Referrers()
-	if refs == nil {
+	// go/ssa has no CSE: uint64(v) written twice is two Convert instructions
+	fn := x.Parent()
+	if fn == nil {
 		return false
 	}
-	for _, r := range *refs {
-		if b, ok := r.(*ssa.BinOp); ok && b.Op == token.SHR && b.X == x.X {
-			if k, ok := constInt(b.Y); ok && k.IsInt64() && k.Int64() == int64(bits) {
-				return true
+	for _, blk := range fn.Blocks {
+		for _, in := range blk.Instrs {
+			if b, ok := in.(*ssa.BinOp); ok && b.Op == token.SHR && sameConv(b.X, x.X, 0) {
+				if k, ok := constInt(b.Y); ok && k.IsInt64() && k.Int64() == int64(bits) {
+					return true
+				}
 			}
+		}
+	}
+	return false
+}
+
+// sameConv: a and b are the same value, or the same integer conversion of the same value.
+func sameConv(a, b ssa.Value, d int) bool {
+	if a == b {
+		return true
+	}
+	if d > 3 {
+		return false
+	}
+	ca, ok1 := a.(*ssa.Convert)
+	cb, ok2 := b.(*ssa.Convert)
+	if ok1 && ok2 && types.Identical(ca.Type(), cb.Type()) {
+		if _, isParamOrConst := ca.X.(*ssa.Parameter); isParamOrConst || ca.X == cb.X {
+			return sameConv(ca.X, cb.X, d+1)
 		}
 	}
 	return false
@@ -1121,3 +1142,4 @@ func (w *World) valueRange(fn *ssa.Function, at ssa.Instruction, v ssa.Value, lo
 	}
 	return true, fmt.Sprintf("proved %s on each of the %d return values of %s", rangeName(lo, hi), nret, p.FuncName(callee))
 }
+
